@@ -66,7 +66,7 @@ def gen(rng, **kw):
 
 
 FAULTS = ["unknown_method", "lowercase_method", "truncated_method", "no_sp_after_method", "no_http", "misspelt_http",
-          "nondigit_major", "nondigit_minor", "junk_after_version", "header_no_colon", "no_final_empty_line",
+          "nondigit_major", "nondigit_minor", "junk_after_version", "header_no_colon", "folded_header", "no_final_empty_line",
           "prefix"]
 
 
@@ -114,6 +114,20 @@ def fault(rng, p, kind):
             else:
                 out += k + b":" + v + b"\r\n"
         return out + b"\r\n"
+    if kind == "folded_header":
+        # obsolete line folding: a header value continued on a line that starts with SP / HTAB (and holds no colon) is a
+        # header line without a colon for this grammar
+        pos = rng.randrange(len(q["headers"]) + 1)
+        out = q["verb"] + b" " + q["target"] + b" HTTP/" + q["version"] + q["eols"][0]
+        hs = list(zip(q["headers"], q["eols"][1:]))
+        hs.insert(pos, ((b"X-List", b" a,"), None))
+        for (k, v), e in hs:
+            if e is None:
+                e = rng.choice([b"\r\n", b"\n"])
+                out += k + b":" + v + e + rng.choice([b" ", b"\t", b"  "]) + rng.choice([b"b", b"b, c", b"continued value"]) + e
+            else:
+                out += k + b":" + v + e
+        return out + q["eols"][-1]
     if kind == "no_final_empty_line":
         return full[:-len(p["eols"][-1])]
     if kind == "prefix":
